@@ -52,6 +52,45 @@ class Matcher:
         self.bind: dict[str, str] = dict(bindings or {})      # metavar -> local name
         self.ebind: dict[str, str] = {}                         # expression metavar -> ast.dump
         self.enodes: dict[str, ast.AST] = {}
+        self._depth = 0
+
+    # positional / keyword spelling of the same call is one call
+    SIGNATURES = {
+        'numpy.repeat': ('a', 'repeats', 'axis'),
+        'numpy.stack': ('arrays', 'axis'),
+        'numpy.full': ('shape', 'fill_value', 'dtype'),
+        'numpy.zeros': ('shape', 'dtype'),
+        'numpy.sum': ('a', 'axis'),
+        'numpy.any': ('a', 'axis'),
+        'numpy.all': ('a', 'axis'),
+        'numpy.append': ('arr', 'values', 'axis'),
+        'numpy.fromiter': ('iter', 'dtype', 'count'),
+        'numpy.pad': ('array', 'pad_width', 'mode'),
+        'numpy.ma.masked_array': ('data', 'mask'),
+    }
+
+    def _signature(self, call: ast.Call):
+        d = dotted(call.func)
+        if d is None or any(part.startswith((MV, MVE)) for part in d.split('.')):
+            return None
+        head = d.split('.')[0]
+        if head in self.fi.params or head in ('self', 'cls'):
+            return None
+        r = self.ctx.p.canonical(self.fi.module.resolve(d))
+        if r in self.SIGNATURES:
+            return r
+        return d if d in self.SIGNATURES else None
+
+    def _by_name(self, call: ast.Call, sig: str):
+        names = self.SIGNATURES[sig]
+        if len(call.args) > len(names) or any(isinstance(a, ast.Starred) for a in call.args) or any(k.arg is None for k in call.keywords):
+            return None
+        out = {names[i]: a for i, a in enumerate(call.args)}
+        for k in call.keywords:
+            if k.arg in out:
+                return None
+            out[k.arg] = k.value
+        return out
 
     # ---------------------------------------------------------------- core
     def _resolve(self, node: ast.AST) -> Optional[str]:
@@ -107,8 +146,31 @@ class Matcher:
                     return True
                 if isinstance(pat, ast.Name) or isinstance(node, ast.Name):
                     return False
+        # an intermediate variable is transparent: a structured pattern is matched against the
+        # definition of a local that has exactly one reaching plain assignment
+        if isinstance(node, ast.Name) and isinstance(getattr(node, 'ctx', None), ast.Load) and isinstance(pat, ast.expr) \
+                and not isinstance(pat, (ast.Name, ast.Constant)) and self._depth < 6:
+            try:
+                d = self.ctx.flow(self.fi).single_def(node)
+            except Exception:
+                d = None
+            if d is not None and d.kind in ('assign', 'walrus') and d.value is not None and not isinstance(d.value, ast.Name):
+                self._depth += 1
+                try:
+                    return self._m(pat, d.value, bind, ebind, enodes)
+                finally:
+                    self._depth -= 1
+            return False
         if type(pat) is not type(node):
             return False
+        if isinstance(pat, ast.Call):
+            sp, sn = self._signature(pat), self._signature(node)
+            if sp is not None and sp == sn:
+                ap, an = self._by_name(pat, sp), self._by_name(node, sn)
+                if ap is not None and an is not None:
+                    if set(ap) != set(an) or not self._m(pat.func, node.func, bind, ebind, enodes):
+                        return False
+                    return all(self._m(ap[k], an[k], bind, ebind, enodes) for k in ap)
         if isinstance(pat, ast.arg):
             if pat.arg.startswith(MV):
                 key = pat.arg[len(MV):]
@@ -123,6 +185,9 @@ class Matcher:
             if field in ('ctx', 'lineno', 'col_offset', 'end_lineno', 'end_col_offset', 'type_comment', 'kind'):
                 continue
             nv = getattr(node, field, None)
+            if field == 'value' and isinstance(pat, (ast.Assign, ast.AnnAssign, ast.AugAssign)) and isinstance(nv, ast.Name) \
+                    and not isinstance(pv, ast.Name):
+                return False        # `b = a` is an alias of a, not a second definition of a's value
             if isinstance(pv, list):
                 if not isinstance(nv, list):
                     return False
@@ -174,6 +239,8 @@ class Matcher:
         # an annotated assignment in the code matches a plain assignment pattern
         if isinstance(pat, ast.Assign) and isinstance(node, ast.AnnAssign) and node.value is not None and len(pat.targets) == 1:
             node = ast.Assign(targets=[node.target], value=node.value)
+        if isinstance(node, ast.Name) and not isinstance(pat, ast.Name):
+            return False        # transparency of intermediates applies below the root only
         b, e, en = dict(self.bind), dict(self.ebind), dict(self.enodes)
         ok = self._m(pat, node, b, e, en)
         if ok and commit:
